@@ -1,6 +1,7 @@
 import PhyVerif.Model.C16
 import PhyVerif.Spec.C16
 import PhyVerif.Lemmas.C16
+import PhyVerif.Lemmas.C16b
 /-!
 # C16 — chunkings tile the sample axis exactly once
 
@@ -65,11 +66,20 @@ theorem getExcerpts_sublist {α : Type} (data : List α) (k size : Nat) (hs : 0 
     (getExcerpts data k size).Sublist data ∧ (getExcerpts data k size).length ≤ k * size :=
   Lemmas.getExcerpts_sublist data k size hs hlen
 
+/-- Composition with the reader model of C01: reading a recording made of any number of files
+(empty ones included) chunk by chunk through the reader's own iterator (`reader[i0:i1]` for each yielded pair) and
+stacking the chunks gives back exactly the concatenated recording — nothing lost at file or chunk
+boundaries, nothing read twice. -/
+theorem read_by_chunks_eq_concat {α : Type} (parts : List (List α)) (cs : Nat) (hcs : 0 < cs) :
+    readByChunks parts cs = some parts.flatten :=
+  Lemmas.read_by_chunks_eq_concat parts cs hcs
+
 /-! Non-vacuity: concrete non-trivial inputs meet the hypotheses and exercise several chunks. -/
 example : chunkBounds 20 7 2 = [⟨0,7,0,6⟩, ⟨5,12,6,11⟩, ⟨10,17,11,16⟩, ⟨15,20,16,20⟩] := by decide
 example : kept [10,11,12,13,14,15,16] (chunkBounds 7 3 1) = [10,11,12,13,14,15,16] := by decide
 example : getChunkBounds [3,5,2] 2 = [0,2,3,5,7,8,10] := by decide
 example : iterChunksMts 2 [0,3,6,9,10] = [(0,3),(3,9),(9,10)] := by decide
+example : readByChunks [[1,2,3],[4,5,6,7,8],[9,10]] 2 = some [1,2,3,4,5,6,7,8,9,10] := by decide
 example : excerpts 20 3 4 = [(0,4),(8,12),(16,20)] := by decide
 
 end PhyVerif.C16
